@@ -160,6 +160,9 @@ func (c *Ctx) panicFree(pkg string, fns []*ssa.Function, boundsOnly bool) {
 					if totalCallees[name] {
 						continue // (c)
 					}
+					if name == "strings.Builder.Grow" && len(x.Call.Args) == 2 && nonNegSize(x.Call.Args[1], 0) {
+						continue // (c) Grow panics only for a negative count
+					}
 					if x.Call.IsInvoke() || x.Call.StaticCallee() == nil {
 						why = "dynamic call to unknown code"
 					} else {
@@ -339,4 +342,37 @@ func nonNegLoopVar(v ssa.Value) bool {
 		return false
 	}
 	return okv(p)
+}
+
+// nonNegSize: v is a length, a non-negative constant, or a sum / small constant multiple of such values. A length is
+// bounded by addressable memory (< 2^48 bytes), so adding a constant below 2^20 or scaling by at most 4 cannot wrap
+// a 64-bit int; larger constants are not accepted.
+func nonNegSize(v ssa.Value, depth int) bool {
+	if depth > 4 {
+		return false
+	}
+	switch x := stripConv(v).(type) {
+	case *ssa.Const:
+		return x.Value != nil && x.Value.Kind() == constant.Int && x.Int64() >= 0 && x.Int64() < 1<<20
+	case *ssa.Call:
+		if b, ok := x.Call.Value.(*ssa.Builtin); ok && (b.Name() == "len" || b.Name() == "cap") {
+			return true
+		}
+	case *ssa.BinOp:
+		switch x.Op {
+		case token.ADD:
+			return nonNegSize(x.X, depth+1) && nonNegSize(x.Y, depth+1)
+		case token.MUL:
+			k, ok := stripConv(x.Y).(*ssa.Const)
+			if !ok {
+				k, ok = stripConv(x.X).(*ssa.Const)
+				if ok {
+					return k.Value != nil && k.Value.Kind() == constant.Int && k.Int64() >= 0 && k.Int64() <= 4 && nonNegSize(x.Y, depth+1)
+				}
+				return false
+			}
+			return k.Value != nil && k.Value.Kind() == constant.Int && k.Int64() >= 0 && k.Int64() <= 4 && nonNegSize(x.X, depth+1)
+		}
+	}
+	return false
 }
